@@ -5,7 +5,8 @@ import vlib
 TARGETS = ["Base/Corr.vo", "C11/Model.vo", "C11/Spec.vo", "C11/ProofsMap.vo", "C11/ProofsIter.vo", "C11/ProofsInv.vo",
            "C11/ProofsRef.vo",
            "C03/Model.vo", "C03/Corr.vo", "C03/Spec.vo", "C03/SpecTest.vo", "C03/ProofsDense.vo",
-           "C03/ProofsSem.vo", "C03/ProofsJoint.vo", "C03/ProofsConv.vo", "C03/ProofsOps.vo", "C03/Props.vo"]
+           "C03/ProofsSem.vo", "C03/ProofsJoint.vo", "C03/ProofsConv.vo", "C03/ProofsOps.vo",
+           "C03/ModelM.vo", "C03/CorrM.vo", "C03/ProofsM.vo", "C03/Props.vo"]
 PROPS = ["C03/Props.v"]
 PARTIAL = ("Theorems are about the hand-written model coq/C03/Model.v (on top of the shared sparse-vector model "
            "coq/C11/Model.v: heap of cells + value map + ordered key set standing for the AVL index, justified by C19) of "
@@ -34,26 +35,33 @@ def corr(ctx, binary, n):
     if rc != 0:
         ctx.violation({"obligation": "C03 harness run", "log": out[-3000:]}, False,
                       "harness failed on the implementation (crash while generating histories)")
-        return []
-    meta = json.load(open(os.path.join(ctx.dir, "cases.meta.json")))
-    vlib.merge_meta(ctx, meta)
-    shards = sorted(glob.glob(os.path.join(ctx.dir, "cases_*.v")),
-                    key=lambda p: int(os.path.basename(p)[6:-2]))
-    res = vlib.eval_shards(shards)
-    ctx.oblige(len(res), sum(1 for r in res if r["ok"]))
-    cases = vlib.load_jsonl(os.path.join(ctx.dir, "cases.jsonl"))
-    bad = []
-    for k, r in enumerate(res):
-        if r["ok"]:
+        return {"cases": [], "mcases": []}
+    bad = {"cases": [], "mcases": []}
+    total = 0
+    for stem in ("cases", "mcases"):
+        mp = os.path.join(ctx.dir, stem + ".meta.json")
+        if not os.path.exists(mp):
             continue
-        if r["mism"] is None:
-            ctx.violation({"obligation": "correspondence shard " + os.path.basename(r["path"]),
-                           "coqc_error": r["error"]}, False, "correspondence shard did not evaluate")
-            continue
-        for i in r["mism"]:
-            bad.append(cases[k * meta["per_shard"] + i])
-    ctx.log("correspondence: %d histories in %d shards (%.0fs coqc), %d mismatching" % (
-        len(cases), len(res), sum(r["secs"] for r in res), len(bad)))
+        meta = json.load(open(mp))
+        vlib.merge_meta(ctx, meta)
+        shards = sorted(glob.glob(os.path.join(ctx.dir, stem + "_*.v")),
+                        key=lambda p: int(os.path.basename(p)[len(stem) + 1:-2]))
+        res = vlib.eval_shards(shards)
+        ctx.oblige(len(res), sum(1 for r in res if r["ok"]))
+        cases = vlib.load_jsonl(os.path.join(ctx.dir, stem + ".jsonl"))
+        total += len(cases)
+        for k, r in enumerate(res):
+            if r["ok"]:
+                continue
+            if r["mism"] is None:
+                ctx.violation({"obligation": "correspondence shard " + os.path.basename(r["path"]),
+                               "coqc_error": r["error"]}, False, "correspondence shard did not evaluate")
+                continue
+            for i in r["mism"]:
+                bad[stem].append(cases[k * meta["per_shard"] + i])
+        ctx.log("correspondence (%s): %d histories in %d shards (%.0fs coqc), %d mismatching" % (
+            "vectors" if stem == "cases" else "matrices", len(cases), len(res), sum(r["secs"] for r in res),
+            len(bad[stem])))
     return bad
 
 
@@ -62,7 +70,7 @@ def hunt(ctx, binary, bad, broken):
     histories first, then (only when something broke, or always in the thorough tier) all zero patterns
     for small dimensions x every storage combination, then random histories."""
     rp = os.path.join(ctx.dir, "hunt_in.json")
-    json.dump({"cases": bad[:50]}, open(rp, "w"))
+    json.dump({"cases": bad["cases"][:50], "mcases": bad["mcases"][:50]}, open(rp, "w"))
     n = 2000 if ctx.tier == "quick" else 20000
     rc, out = vlib.sh([binary, "--extra", "hunt", "--replay", rp, "--n", str(n), "--seed", str(ctx.seed),
                        "--tier", ctx.tier, "--out", ctx.dir], timeout=1500, env=vlib.go_env())
@@ -113,22 +121,25 @@ def run(ctx):
         return
     n = 360 if ctx.tier == "quick" else 3600
     bad = corr(ctx, binary, n)
-    broken = [f["target"] for f in failures] + (["correspondence C03.Corr.check"] if bad else [])
+    nbad = len(bad["cases"]) + len(bad["mcases"]) if bad else 0
+    broken = [f["target"] for f in failures] + (["correspondence C03.Corr.check"] if nbad else [])
     known(ctx, binary)
     h0 = hunt(ctx, binary, bad, broken)
     if h0:
         # (the recorded finding C03-EQEPS0 is excluded inside the oracle itself, narrowly: the result of an
         #  Equals call with epsilon <= 0 is not judged; it is replayed separately by known())
-        ctx.violation({"case": h0["case"], "failure": h0["failure"], "at": h0["at"], "broken": broken}, True,
+        key = "mcase" if h0.get("mcase") else "case"
+        ctx.violation({key: h0[key], "failure": h0["failure"], "at": h0["at"], "broken": broken}, True,
                       "result depends on storage / prior receiver content: " + h0["failure"])
         return
     for f in failures:
         ctx.violation({"obligation": f["target"], "lemma": f["lemma"], "errors": f["errors"]}, False,
                       "proof obligation no longer checks: %s %s" % (f["target"], f["lemma"] or ""))
-    if bad:
-        ctx.violation({"case": bad[0], "obligation": "correspondence C03.Corr.check (model vs implementation)"},
-                      False, "model and implementation disagree on a history (%d of them), but no history "
-                      "violating the property itself was found" % len(bad))
+    if nbad:
+        first = {"case": bad["cases"][0]} if bad["cases"] else {"mcase": bad["mcases"][0]}
+        first["obligation"] = "correspondence C03.Corr.check / C03.CorrM.check4 (model vs implementation)"
+        ctx.violation(first, False, "model and implementation disagree on a history (%d of them), but no history "
+                      "violating the property itself was found" % nbad)
 
 
 def replay(ctx, path):
@@ -136,6 +147,18 @@ def replay(ctx, path):
     binary, blog = vlib.build_harness("c03")
     if binary is None:
         print(blog); return 2
+    if "mcase" in rp:
+        hin = os.path.join(ctx.dir, "hunt_in.json")
+        case = dict(rp["mcase"]); case.pop("outs", None)
+        json.dump({"mcases": [case]}, open(hin, "w"))
+        vlib.sh([binary, "--extra", "hunt", "--replay", hin, "--n", "0", "--out", ctx.dir], env=vlib.go_env())
+        h = json.load(open(os.path.join(ctx.dir, "hunt.json")))
+        print("property oracle on the implementation: %s" % (h["failure"] if h.get("found") else "holds"))
+        if not h.get("found"):
+            # a model/implementation disagreement without a property failure: re-run the correspondence
+            ctx2_bad = corr(ctx, binary, 360 if ctx.tier == "quick" else 3600)
+            return 1 if (ctx2_bad["cases"] or ctx2_bad["mcases"]) else 0
+        return 1
     if "case" not in rp:
         print("replay names a broken obligation, not an input: %s" % rp.get("obligation"))
         ok, failures = vlib.proof_stage(ctx, TARGETS, PROPS)
